@@ -29,7 +29,7 @@ def logic_corpus(tier, seed):
     items = []
     nls = netlist.g2_shapes() + scratch_shapes() + netlist.g3_random(seed, 30 if tier == 'quick' else 600)
     for j, nl in enumerate(nls):
-        for style in (('verilog', 'bench', 'lean') if tier == 'thorough' or j < 30 else (('verilog', 'bench', 'lean')[j % 3],)):
+        for style in (('verilog', 'bench', 'lean', 'vbf') if tier == 'thorough' or j < 30 else (('verilog', 'bench', 'lean', 'vbf')[j % 4],)):
             for m in (2, 4, 8):
                 items.append((('nl', nl.to_json(), style), m))
     for r in netlist.G4:
@@ -101,6 +101,9 @@ def _logic_item_path(item, rep, eng):
     bad = [((s1.s[1, i, p, 0] ^ s2.s[1, i, p, 0]) & bit) != 0 for i in s1.poppo_s_locs for p in range(planes)]
     rep.counts['obligations'] += 1
     r = q.check(z3.Or(bad)) if bad else z3.unsat
+    if r == z3.unknown:          # (seen under heavy machine load) the same claim lane by lane: eight queries without the symbolic shift
+        rs = [q.check(j == k, z3.Or(bad)) for k in range(8)]
+        r = z3.sat if any(x == z3.sat for x in rs) else (z3.unsat if all(x == z3.unsat for x in rs) else z3.unknown)
     if r == z3.unsat: rep.counts['discharged'] += 1
     elif r == z3.sat: rep.violation(f'logic/lane-interference/{name}', f'{name} m={m}: a lane\'s result depends on other lanes', {'mode': 'lane', 'recipe': recipe, 'm': m})
     else: rep.error('lane query unknown')
@@ -139,6 +142,9 @@ def replay_logic(data):
 # ------------------------------------------------------------------------------------------------ WaveSim product runs
 
 W_NLS = [wsim.E2E_NLS[2], wsim.E2E_NLS[3], wsim.E2E_NLS[0]]
+# an output that starts at 1 and receives four transitions: with capacity 4 the third is dropped, the fourth refills the waveform and the
+# overflow marker lands in the very last slot
+OVL_NL = netlist.NL('xnor4ovl', [('a', 'in'), ('b', 'in'), ('c', 'in'), ('d', 'in'), ('z', 'out')], [('g', 'XNOR4', ['z'], ['a', 'b', 'c', 'd'])])
 
 
 def fork_input_lines(c):
@@ -154,7 +160,7 @@ def wave_jobs(tier):
             for cls in ('cpu', 'gpu'):
                 J.append((nl.to_json(), st, f'sims:{cls}'))
                 for sel in (0, 1): J.append((nl.to_json(), st, f'datasets:{cls}:{sel}'))
-    return J
+    return [(OVL_NL.to_json(), 'RRRR', 'options:4')] + J          # the longest job first
 
 
 def _results(sw, lane=0):
@@ -226,17 +232,18 @@ def wave_job(job):
 
     def fn(eng):
         bad = None
-        if variant == 'options':
+        if variant.startswith('options'):
+            caps = int(variant.split(':')[1]) if ':' in variant else 8
             dv, tv = mkvars(eng, 1, True)
             tc = z3.Real('tcap'); eng.assume(tc >= -200, tc <= 300)
-            ref = wsim.SymWave(eng, 'cpu', c, 8, stim, {}, dvars=dv, tvars=tv).run(capture_time=T(0, tc))
+            ref = wsim.SymWave(eng, 'cpu', c, caps, stim, {}, dvars=dv, tvars=tv).run(capture_time=T(0, tc))
             r0 = _results(ref)
             ref.w.s_ppo_to_ppi(time=0.5)
             p0 = {(k, int(i)): ref.w.s[k, int(i), 0] for i in range(ref.w.s_len) for k in (0, 1, 2)}
             for cls in ('cpu', 'gpu'):
                 for reuse, strip in OPTS:
                     if (cls, reuse, strip) == ('cpu', False, False): continue
-                    sw = wsim.SymWave(eng, cls, c, 8, stim, {'c_reuse': reuse, 'strip_forks': strip}, dvars=dv, tvars=tv).run(capture_time=T(0, tc))
+                    sw = wsim.SymWave(eng, cls, c, caps, stim, {'c_reuse': reuse, 'strip_forks': strip}, dvars=dv, tvars=tv).run(capture_time=T(0, tc))
                     k = _same(eng, r0, _results(sw))
                     if k is None:
                         sw.w.s_ppo_to_ppi(time=0.5)
@@ -332,15 +339,16 @@ def replay_wave(data):
 
     def res(w, lane=0): return {(k, int(i)): float(w.s[k, int(i), lane]) for i in w.poppo_s_locs for k in (3, 4, 5, 6, 7, 10)}
     try:
-        if variant == 'options' or info.get('exception') and variant == 'options':
+        if variant.startswith('options'):
+            caps = int(variant.split(':')[1]) if ':' in variant else 8
             tc = np.float32(data.get('tcap', 0.0))
             st3 = lambda w: [float(w.s[k, i, 0]) for i in range(w.s_len) for k in (0, 1, 2)]
-            ref = wsim.concrete_wave('cpu', c, 8, stim, {}, dvals, tvals, capture_time=tc)
+            ref = wsim.concrete_wave('cpu', c, caps, stim, {}, dvals, tvals, capture_time=tc)
             r0 = res(ref); ref.s_ppo_to_ppi(time=0.5)
             out = []
             for cls in ('cpu', 'gpu'):
                 for reuse, strip in OPTS:
-                    w = wsim.concrete_wave(cls, c, 8, stim, {'c_reuse': reuse, 'strip_forks': strip}, dvals, tvals, capture_time=tc)
+                    w = wsim.concrete_wave(cls, c, caps, stim, {'c_reuse': reuse, 'strip_forks': strip}, dvals, tvals, capture_time=tc)
                     if res(w) != r0: out.append((cls, reuse, strip)); continue
                     w.s_ppo_to_ppi(time=0.5)
                     if st3(w) != st3(ref): out.append((cls, reuse, strip, 'state transfer'))
